@@ -691,6 +691,27 @@ fn run_case(c: &Case, res: &mut ImplResult) -> Observed {
         res.oracle.push(("harness-sanity".into(), "instruction analysed on a non-amd64 dump".into()));
     }
 
+    // ---- determinism (C13 borrows this class): candidates found through SEVERAL registers must come in
+    // the same order in every run (each run builds fresh hash containers with fresh seeds)
+    {
+        let srcs: std::collections::BTreeSet<String> = info.possible_bit_flips.iter().map(|f| format!("{:?}", f.source_register)).collect();
+        if srcs.len() >= 2 {
+            let first = format!("{:?}", info.possible_bit_flips);
+            for run in 1..=4 {
+                let again = process(build_dump(c));
+                let now = again.exception_info.as_ref().map(|i| format!("{:?}", i.possible_bit_flips)).unwrap_or_default();
+                if now != first {
+                    res.oracle.push((
+                        "bit-flips-differ-between-runs".into(),
+                        format!("run 0: {first}  run {run}: {now}"),
+                    ));
+                    break;
+                }
+            }
+            res.tags.push("det:several-source-registers".into());
+        }
+    }
+
     // ---- canonical output
     let mut out = String::from("flips:");
     for f in &info.possible_bit_flips {
